@@ -470,16 +470,8 @@ class Tensor:
         return F.slice(self, key)
     
     def __iter__(self):
-        self._current_idx = 0
-        return self
-    
-    def __next__(self) -> 'Tensor':
-        if self._current_idx >= len(self):
-            raise StopIteration
-        else:
-            val = self[self._current_idx]
-            self._current_idx += 1
-            return val
+        # every call returns an independent iterator over the first dimension
+        return (self[i] for i in range(len(self)))
     
     def __len__(self) -> int:
         return len(self.data)
